@@ -31,6 +31,10 @@ CHECKS = {
          "judged only when a helper was the last collateral-affecting operation; sampling"),
  "C20": ("seeded search over sessions with certificates of all kinds (incl. pre-Conway), withdrawals and proposals in seeded orders; on every body a session builds (or that is forced from the final builder state) get_deposit / get_implicit_input are compared with the node's table and with the builder's own figures",
          "weakest fit of the technique: a cross-invariant between two components on reached states; overflow clause on unreachable bodies not claimed; sampling"),
+ "C13": ("seeded search over create_send_all calls (UTxO sets up to 60 / 400 entries, up to 24 policies and 30 assets per UTxO, names 0-32 bytes, amounts across CBOR width classes, Byron and Shelley owners, small K9 limits so that several outputs and transactions are needed), each executed under K hash-key schedules of the batcher's hash containers; every returned transaction is re-read and checked: partition of the supplied set, target-only outputs, preservation of value, minimum fee of the bytes with real signatures, min-ADA, value and transaction size",
+         "groupings may differ between hash orders, each result must be valid; script-owned UTxOs are expected to be refused; sampling"),
+ "C16": ("seeded search over three actors: collection histories for 10 set-like types (add with repeats, decode from harness-written bytes repeating elements in tagged/untagged/definite/indefinite/wide encodings, from_json with repeats, clone, restart from bytes/hex/JSON) against a first-insertion-dedup vector model; asset maps filled in seeded permutations read back for canonical key order; wallet sessions whose every successful build is repeated on the unchanged builder and clones under fresh hash keys and compared byte for byte",
+         "two builders filled the same way are not compared (the statement speaks of rebuilding an unchanged builder); the stand-alone Mint list type is insertion ordered by design and only its per-policy names are judged; sampling"),
 }
 def main():
     man = {"version":1,"setup_cmd":"./check build",
